@@ -2147,6 +2147,102 @@ def c19_extra(ctx):
                          'static_init_runs': runs}}
 
 
+# ---------------------------------------------------------------------------------------------------
+# C20: no exceptions, no undefined behaviour
+# ---------------------------------------------------------------------------------------------------
+
+def c20_correspond(ctx):
+    """Every entry point of the real library under AddressSanitizer + UndefinedBehaviorSanitizer + libstdc++
+    assertions, on finite inputs, compared with the model: a sanitizer abort is a crash, an exception is a
+    native error, a wrong value is a disagreement."""
+    sel = [e for e in ctx.model if not (e['meta']['kind'] == 'model-ctor' and not e['meta'].get('args'))]
+    sel = [e for e in sel if not e['id'].endswith('::ctor()') or not e['meta']['cls'].startswith('model:')]
+    per = 1 if ctx.tier == 'quick' else 6
+    return co.correspond(ctx.cache, LEAN, sel, ctx.seed + 20, per_entry=per, variant='san')
+
+
+def parser_fuzz_inputs(ctx, n):
+    rng = random.Random(ctx.seed + 201)
+    out = []
+    specials = [b'', b' ', b'-', b'+', b'.', b'e', b'.e1', b'1e', b'1e+', b'nan', b'NaN', b'inf', b'-inf', b'infinity',
+                b'nan(123)', b'0x', b'0x1p3', b'0x1.8p-1074', b'1e999999999', b'-1e999999999', b'1e-999999999',
+                b'9' * 400, b'0.' + b'0' * 400 + b'1', b'1' + b'0' * 5000, b'1.5\x00garbage', b'\x00', b'\x001.5',
+                b'  \t\n 2.5', b'2.5   ', b'2,5', b'1_000', b'1e5e5', b'--1', b'+-1', b'\xff\xfe', b'\xc2\xb5m',
+                b'1.7976931348623159e308', b'4.9e-324', b'2.2250738585072011e-308', b'3.4028236e38', b'1e-46',
+                b'0.1e-4950', b'1.18973149535723176502e4932', b'1.2e4932']
+    out += specials
+    for _ in range(n):
+        k = rng.random()
+        if k < 0.35:
+            ln = rng.choice((0, 1, 2, 3, 5, 8, 13, 40, 200))
+            out.append(bytes(rng.getrandbits(8) for _ in range(ln)))
+        elif k < 0.7:
+            body = ''.join(rng.choice('0123456789.eE+-xXpPnNaAiIfF \t') for _ in range(rng.randrange(1, 24)))
+            out.append(body.encode())
+        else:
+            d = ''.join(rng.choice('0123456789') for _ in range(rng.randrange(1, 30)))
+            s = (rng.choice(['', '-', '+', ' ']) + d[:rng.randrange(0, len(d) + 1)] + rng.choice(['', '.', '.']) + d +
+                 rng.choice(['', 'e%d' % rng.randrange(-5000, 5000), 'E+', 'f', 'L', '\x00', ' x']))
+            out.append(s.encode('latin-1'))
+    return out
+
+
+def c20_search(ctx, failing, corr, broken):
+    out = []
+    # parsers on arbitrary bytes, real code under sanitizers
+    n = 1500 if ctx.tier == 'quick' else 60000
+    inputs = parser_fuzz_inputs(ctx, n)
+    enums = ['Unit::' + u for u in json.load(open(os.path.join(ctx.cache, 'facts.json')))['units']] + [
+        'UnitSystem', 'ConstitutiveModel::Type']
+    rng = random.Random(ctx.seed + 202)
+    spell = []
+    for u in ctx.tables['units'] + ctx.tables['enums']:
+        for sp, _ in u['spellings'][:6]:
+            b = sp.encode('utf-8')
+            spell.append(b)
+            if b:
+                i = rng.randrange(len(b))
+                spell += [b[:i] + b[i + 1:], b + b'\x00', b[:i] + bytes([b[i] ^ 0x20]) + b[i + 1:], b' ' + b]
+    lines, meta = [], []
+    for b in inputs:
+        for f in (32, 64, 80):
+            lines.append('num %d %s' % (f, b.hex() or '-'))
+            meta.append(('ParseNumber<%d>' % f, b))
+    for b in inputs[:len(inputs) // 3] + spell:
+        en = rng.choice(enums)
+        lines.append('enum %s %s' % (en, b.hex() or '-'))
+        meta.append(('ParseEnumeration<%s>' % en, b))
+    outl, rc, err = textio(ctx, lines)
+    kinds = {}
+    for (what, b), got in zip(meta, outl):
+        g = got.split()[0] if got else 'missing'
+        kinds[g] = kinds.get(g, 0) + 1
+        if g not in ('some', 'none'):
+            out.append({'kind': 'c20-parser', 'call': what, 'bytes_hex': b.hex(), 'result': got,
+                        'what': '%s on the bytes %r: %s (must return a value or nothing)' % (what, b[:60], got)})
+            if len(out) > 5:
+                break
+    if rc != 0 or len(outl) != len(lines):
+        bad = meta[len(outl)] if len(outl) < len(meta) else None
+        out.append({'kind': 'c20-parser-crash', 'returncode': rc, 'stderr': err[-1500:],
+                    'call': bad[0] if bad else None, 'bytes_hex': bad[1].hex() if bad else None,
+                    'what': 'the parser harness died (sanitizer report or signal) at %s on %r' % (
+                        bad[0] if bad else '?', bad[1][:60] if bad else b'')})
+    ctx.c20_parsers = {'requests': len(lines), 'results': kinds}
+    # failing inputs among the sanitizer run
+    for d in (corr or {}).get('disagreements', [])[:4]:
+        out.append({'kind': 'c20-entry', 'entry': d['id'], 'fmt': d['fmt'], 'what': d['detail'],
+                    'native_request': d['native_request']})
+    for c in (corr or {}).get('crashes', [])[:2]:
+        out.append({'kind': 'c20-sanitizer', 'returncode': c.get('returncode'), 'what': 'sanitizer abort / crash of the '
+                    'instrumented harness: ' + (c.get('stderr') or '')[-1200:]})
+    return out
+
+
+def c20_extra(ctx):
+    return {'coverage': {'parser_fuzz_on_real_code': getattr(ctx, 'c20_parsers', {})}}
+
+
 def quantity_corr(pred, seed_off, per_quick=2, per_thorough=30):
     def f(ctx):
         sel = [e for e in ctx.model if not e['meta']['cls'].startswith(('unit:', 'model:')) and pred(e)]
@@ -2242,6 +2338,26 @@ SPECS = {
         ],
         'trusted_extra': ['clang 14 AST (declaration kind, inline, constexpr of each variable template declaration)',
                           'the hand-written reading of [basic.start.dynamic] in Core/Init.lean'],
+    },
+    'C20': {
+        'id': 'C20', 'level': 'proof',
+        'lean_targets': ['PhQVerif.Audit.C20'],
+        'checkers': [('C20uninitStrict', 'quantityEntries'), ('C20uninitStrict', 'unitEntries'), ('C20uninit', 'modelEntries'),
+                     ('C20lookups', 'unitTypes')],
+        'correspond': c20_correspond,
+        'search': c20_search,
+        'always_search': True,
+        'extra': c20_extra,
+        'assumptions': [
+            'lookups, uninitialised reads, exceptions on explored paths and ParseEnumeration totality are theorems over '
+            'the translated model and the dumped tables',
+            'signed overflow, invalid enum values, memory errors and the totality of std::stof/stod/stold behind '
+            'ParseNumber are runtime behaviour: every entry point is run under ASan + UBSan + _GLIBCXX_ASSERTIONS and the '
+            'parsers are fuzzed with arbitrary bytes (testing, not proof)',
+            'a default-constructed constitutive model has indeterminate moduli (the library documents default '
+            'construction as uninitialised); observing it is excluded, as for every default-constructed quantity',
+        ],
+        'trusted_extra': ['g++ 12 sanitizer runtimes (ASan, UBSan) and libstdc++ assertions detecting the undefined behaviour they cover'],
     },
     'C10': {
         'id': 'C10', 'level': 'proof',
